@@ -1,5 +1,5 @@
 (* C04 proofs: the counting kernels (algo) equal direct counting (spec). *)
-From Coq Require Import ZArith List Bool QArith Qcanon Lia.
+From Coq Require Import ZArith List Bool QArith Qcanon Lia Field.
 From TE Require Import Base.Val Base.Nd Base.Xq Algebra.Metric Algebra.MergeTree Algebra.Additive Models.Counting.
 Import ListNotations.
 Open Scope Z_scope.
@@ -482,3 +482,82 @@ Theorem mcrec_weighted_total_refuted :
             is_err (fn_of mcrec_spec (Weighted, Some 3%nat) b) = true /\
             mcrec_textbook (Weighted, Some 3%nat) b = RS (Fin (z2q 1)).
 Proof. exists (Labels [0], [0]). vm_compute. auto. Qed.
+
+(* ------------------------------------------------------------------------------------------ *)
+(* F1                                                                                          *)
+(* ------------------------------------------------------------------------------------------ *)
+Lemma zdiv_0 b : zdiv 0 b = 0%Qc.
+Proof. unfold zdiv. rewrite z2q_0. unfold Qcdiv. ring. Qed.
+(* 2 * precision * recall / (precision + recall) with IEEE semantics and nan_to_num = 2tp / (label + prediction), 0 if undefined *)
+Lemma f1c_z t l p : 0 <= t -> t <= l -> t <= p -> f1c (z2q t) (z2q l) (z2q p) = ratio0 (2 * t) (l + p).
+Proof.
+  intros Ht Hl Hp. unfold f1c.
+  rewrite (qdivx_z t p), (qdivx_z t l) by lia.
+  unfold ratioN, ratio0.
+  destruct (Z.eqb_spec p 0) as [Ep|Ep]; destruct (Z.eqb_spec l 0) as [El|El]; cbn [xmul xadd xdiv nan_to_zero].
+  - destruct (Z.eqb_spec (l + p) 0); [reflexivity|lia].
+  - assert (t = 0) by lia. subst t. destruct (Z.eqb_spec (l + p) 0); [reflexivity|]. rewrite Z.mul_0_r, zdiv_0. reflexivity.
+  - assert (t = 0) by lia. subst t. destruct (Z.eqb_spec (l + p) 0); [reflexivity|]. rewrite Z.mul_0_r, zdiv_0. reflexivity.
+  - destruct (Z.eqb_spec (l + p) 0) as [E|E]; [lia|].
+    destruct (Z.eq_dec t 0) as [->|Et].
+    + rewrite Z.mul_0_r, !zdiv_0. unfold qdivx.
+      replace (0 + 0)%Qc with 0%Qc by ring. replace (mkq 2 1 * 0 * 0)%Qc with 0%Qc by ring.
+      unfold qeq. destruct (Qc_eq_dec 0 0); [reflexivity|congruence].
+    + assert (HT : z2q t <> 0%Qc) by (rewrite z2q_eq0; exact Et).
+      assert (HP : z2q p <> 0%Qc) by (rewrite z2q_eq0; exact Ep).
+      assert (HL : z2q l <> 0%Qc) by (rewrite z2q_eq0; exact El).
+      assert (HLP : (z2q l + z2q p)%Qc <> 0%Qc) by (rewrite <- z2q_add, z2q_eq0; exact E).
+      assert (HTT : (z2q t * z2q l + z2q t * z2q p)%Qc <> 0%Qc) by (rewrite <- !z2q_mul, <- z2q_add, z2q_eq0; nia).
+      assert (HB : (zdiv t p + zdiv t l)%Qc <> 0%Qc).
+      { intros HB. assert (Hx : (z2q t * z2q l + z2q t * z2q p = (zdiv t p + zdiv t l) * (z2q p * z2q l))%Qc).
+        { unfold zdiv. field. auto. }
+        rewrite HB in Hx. apply HTT. rewrite Hx. ring. }
+      unfold qdivx, qeq. destruct (Qc_eq_dec (zdiv t p + zdiv t l) 0) as [E0|_]; [contradiction|].
+      cbn [nan_to_zero]. f_equal. unfold zdiv. rewrite z2q_mul, z2q_add. change (mkq 2 1) with (z2q 2). field.
+      repeat split; assumption.
+Qed.
+Lemma tp_le_pred c ps : tp c ps <= tp c ps + fp c ps. Proof. pose proof (fp_nonneg c ps). lia. Qed.
+Lemma f1_pt ps c : f1c (z2q (tp c ps)) (z2q (support ps c)) (z2q (tp c ps + fp c ps)) = f1_c ps c.
+Proof.
+  unfold f1_c, support. pose proof (tp_nonneg c ps). pose proof (fp_nonneg c ps). pose proof (fn_nonneg c ps).
+  rewrite f1c_z by lia. f_equal. lia.
+Qed.
+Lemma ratio0_double a n : ratio0 (2 * a) (n + n) = ratio0 a n.
+Proof.
+  unfold ratio0. destruct (Z.eqb_spec n 0) as [->|En]; [reflexivity|].
+  destruct (Z.eqb_spec (n + n) 0); [lia|]. f_equal. unfold zdiv. rewrite z2q_mul, z2q_add.
+  assert (z2q n <> 0%Qc) by (rewrite z2q_eq0; exact En).
+  assert ((z2q n + z2q n)%Qc <> 0%Qc) by (rewrite <- z2q_add, z2q_eq0; lia).
+  change (z2q 2) with (1 + 1)%Qc. field. auto.
+Qed.
+
+Theorem mcf1_algo_eq_spec a nc b :
+  aligned b -> (a = Weighted -> targets_in (ncls nc) b) ->
+  fn_of mcf1_spec (a, nc) b = mcf1_textbook (a, nc) b.
+Proof.
+  intros Hal Hv. unfold fn_of, mcf1_textbook, prf_spec_of. cbn [agamma abeta mcf1_spec fst snd].
+  rewrite <- pairs_eq. unfold f1_beta, f1_gamma. cbn [fst snd]. set (ps := pairs b) in *.
+  destruct a; cbn [is_micro].
+  - f_equal. cbn [fsc nget narr nth nsc zsc]. unfold micro_spec, n_correct. rewrite <- (lenZ_pairs b Hal). fold ps.
+    pose proof (cnt_le_len (fun py : Z * Z => fst py =? snd py) ps) as H1.
+    pose proof (cnt_nonneg (fun py : Z * Z => fst py =? snd py) ps) as H2.
+    change (lenZ (sel_eq ps)) with (cnt (fun py : Z * Z => fst py =? snd py) ps).
+    rewrite f1c_z by lia. apply ratio0_double.
+  - f_equal. rewrite vec_support, vec_npred, vec_tp.
+    destruct (fld_zvec3 (map (support ps) (classes (ncls nc))) (map (fun c => tp c ps + fp c ps) (classes (ncls nc))) (map (fun c => tp c ps) (classes (ncls nc)))) as [E0 [E1 E2]].
+    rewrite E0, E1, E2, rows3, filter_map, map_map. cbn [fst snd]. unfold macro_of. f_equal.
+    rewrite (filter_ext _ (present ps)) by (intros c; apply present_mask_rec).
+    apply map_ext. intros c. apply f1_pt.
+  - f_equal. rewrite vec_support, vec_npred, vec_tp.
+    destruct (fld_zvec3 (map (support ps) (classes (ncls nc))) (map (fun c => tp c ps + fp c ps) (classes (ncls nc))) (map (fun c => tp c ps) (classes (ncls nc)))) as [E0 [E1 E2]].
+    rewrite E0, E1, E2, rows3, filter_map, !map_map, map2_map. cbn [fst snd]. unfold weighted_of.
+    rewrite (filter_ext _ (present ps)) by (intros c; apply present_mask_rec). f_equal.
+    rewrite <- (map_map (support ps) z2q), qsum_z2q, sumZ_filter_zero, sum_support by
+      (try (apply forallb_snd_combine, Hv; reflexivity); intros c Hc; unfold present in Hc; apply negb_false_iff, Z.eqb_eq in Hc;
+       unfold support; pose proof (tp_nonneg c ps); pose proof (fp_nonneg c ps); pose proof (fn_nonneg c ps); lia).
+    apply map_ext. intros c. rewrite f1_pt. f_equal. apply qdivx_z.
+    intros H0. pose proof (support_le c ps). unfold support in *. pose proof (tp_nonneg c ps). pose proof (fn_nonneg c ps). lia.
+  - f_equal. rewrite vec_support, vec_npred, vec_tp.
+    destruct (fld_zvec3 (map (support ps) (classes (ncls nc))) (map (fun c => tp c ps + fp c ps) (classes (ncls nc))) (map (fun c => tp c ps) (classes (ncls nc)))) as [E0 [E1 E2]].
+    rewrite E0, E1, E2, rows3, map_map. cbn [fst snd]. apply map_ext. intros c. apply f1_pt.
+Qed.
